@@ -16,8 +16,9 @@ RULE = (
     'non-trivial iff the broadcast batch has >= 2 elements'
     '; pass 5: leave-one-out objective replicas (where it evaluates); IndependentMultitaskVariationalStrategy against per-task replicas with and without task_indices'
     '; pass 6: NNVariationalStrategy (VNNGP) against per-element replicas for batch ranks 1 and 2'
+    '; pass 7: model lists whose members share modules; SVGP inputs that are the inducing points; one training step on a batch of SVGPs (gradients of the summed ELBO w.r.t. every batched parameter, state after an NGD / SGD step on natural, tril-natural, Cholesky and mean-field q(u)) against the replicas\' own steps'
 )
-REQUIRED = ["kernel_replica", "mean_replica", "likelihood_replica", "posterior_replica", "mll_replica", "svgp_replica", "kl_replica", "elbo_replica", "model_list_identical", "sum_mll_is_mean"]
+REQUIRED = ["kernel_replica", "mean_replica", "likelihood_replica", "posterior_replica", "mll_replica", "svgp_replica", "kl_replica", "elbo_replica", "model_list_identical", "sum_mll_is_mean", "svgp_step_replica"]
 ASSUMPTIONS = ["the leave-one-out objective is compared element-wise wherever it evaluates; it refuses (explicit reshape error) parameters with more batch dimensions than the targets - counted under info:, not a violation (the statement names marginal log likelihood, ELBO and KL)", "replicas are built by slicing the batched object's state_dict: a tensor with batch dims (possibly size-1) is indexed with the element's index (0 on size-1 dims)"]
 ANCHOR_FILES = ["gpytorch/kernels/", "gpytorch/means/", "gpytorch/likelihoods/", "gpytorch/models/", "gpytorch/mlls/", "gpytorch/variational/"]
 
@@ -70,6 +71,13 @@ def cases(tier, seed):
                 if tier == "quick" and rnd.random() < 0.0 and not (pb and dist.startswith("MeanField")):
                     continue
                 yield {"kind": "svgp", "pbatch": pb, "dbatch": db, "zbatch": zb, "strategy": strat, "dist": dist, "seed": rnd.randrange(10**6)}
+        # a training step on a batch of SVGPs: gradients of the summed objective w.r.t. every (batched) parameter, and the state
+        # after one optimiser step (NGD on natural parameters, SGD otherwise) = the replicas' own gradients / steps
+        for pb, zb_, strat, dist in itertools.product([[2], [3, 2]], ["none", "batch"], ["VariationalStrategy", "UnwhitenedVariationalStrategy"],
+                                                      ["NaturalVariationalDistribution", "TrilNaturalVariationalDistribution", "CholeskyVariationalDistribution", "MeanFieldVariationalDistribution"]):
+            if zb_ == "none" and dist.startswith(("Chol", "Mean")) and tier == "quick":
+                continue
+            yield {"kind": "svgp_step", "pbatch": pb, "dbatch": rnd.choice([[], pb]), "zbatch": zb_, "strategy": strat, "dist": dist, "seed": rnd.randrange(10**6)}
         for share, kern in itertools.product((["kernel"], ["lik"], ["mean"], ["kernel", "lik", "mean"]), ("matern", "kiss")):
             yield {"kind": "shared_modules", "share": share, "kernel": kern, "members": rnd.choice([[4, 6], [5, 3, 4]]), "seed": rnd.randrange(10**6)}
         for bb in ([2], [2, 3], [3, 2], [1, 2]):
@@ -109,7 +117,7 @@ def run_case(case, ctx):
     from vf import util
 
     g = util.gen(case["seed"])
-    return {"kernel": _kernel, "mean": _mean, "lik": _lik, "exact": _exact, "svgp": _svgp, "indep_mt": _indep_mt, "vnngp": _vnngp, "shared_modules": _shared_modules, "modellist": _modellist}[case["kind"]](case, ctx, g)
+    return {"kernel": _kernel, "mean": _mean, "lik": _lik, "exact": _exact, "svgp": _svgp, "svgp_step": _svgp_step, "indep_mt": _indep_mt, "vnngp": _vnngp, "shared_modules": _shared_modules, "modellist": _modellist}[case["kind"]](case, ctx, g)
 
 
 def _ex(t, full, *rest):
@@ -428,6 +436,82 @@ def _svgp(case, ctx, g):
             ctx.close("kl_replica", kb, rk, (1e-7, 1e-7), cls="svgp:kl", element=list(b))
         else:
             ctx.close("kl_replica", kl, rk, (1e-7, 1e-7), cls="svgp:kl", element=list(b))
+    ctx.cell(*_cell(case, full))
+
+
+def _svgp_step(case, ctx, g):
+    import torch
+
+    import gpytorch
+    from vf import util
+    from vf.checks import c14
+
+    pb, db = case["pbatch"], case["dbatch"]
+    zb = pb if case["zbatch"] == "batch" else []
+    full = list(pb)
+    M_, n = 4, 7
+    Z = util.randn(g, *zb, M_, D)
+    X, y = util.randn(g, *db, n, D), util.randn(g, *db, n)
+    m = _mk_svgp(pb, Z, case["strategy"], case["dist"])
+    lik = gpytorch.likelihoods.GaussianLikelihood(batch_shape=torch.Size(pb))
+    util.randomize(m.mean_module, g, 0.4)
+    util.randomize(m.covar_module, g, 0.4)
+    util.randomize(lik, g, 0.4)
+    vd = m.variational_strategy._variational_distribution
+    with torch.no_grad():
+        c14._randomize_vd(vd, case["dist"], g)
+    for mod in m.modules():
+        if hasattr(mod, "variational_params_initialized"):
+            mod.variational_params_initialized.fill_(1)
+    natural = "Natural" in case["dist"]
+
+    def step(model, l_, X_, y_):
+        model.train()
+        l_.train()
+        vparams = list(model.variational_parameters())
+        opt = gpytorch.optim.NGD(vparams, num_data=n, lr=0.1) if natural else torch.optim.SGD(vparams, lr=0.05)
+        params = dict(model.named_parameters())
+        params.update({"lik." + k: v for k, v in l_.named_parameters()})
+        for p_ in params.values():
+            p_.grad = None
+        loss = -gpytorch.mlls.VariationalELBO(l_, model, num_data=n)(model(X_), y_).sum()
+        loss.backward()
+        grads = {k: (v.grad.clone() if v.grad is not None else None) for k, v in params.items()}
+        opt.step()
+        with torch.no_grad():
+            model.eval()
+            o = model(X_)
+            after = (o.mean.clone(), o.covariance_matrix.clone())
+        return grads, after, {k: v.detach().clone() for k, v in params.items()}
+
+    # replicas first (they are loaded from the batched model's state BEFORE it steps)
+    reps = {}
+    for b in _elements(full):
+        r = _mk_svgp([], _sl(Z, zb, b, full).clone(), case["strategy"], case["dist"])
+        rl = gpytorch.likelihoods.GaussianLikelihood()
+        _load_slice(m, r, b, full)
+        _load_slice(lik, rl, b, full)
+        for mod in r.modules():
+            if hasattr(mod, "variational_params_initialized"):
+                mod.variational_params_initialized.fill_(1)
+        reps[b] = (r, rl)
+    try:
+        gB, aB, pB = step(m, lik, X, y)
+    except Exception as e:
+        ctx.fail("svgp_step_replica", f"training step on a batch of SVGPs raised {type(e).__name__}: {str(e)[:140]}", "raise", exc=type(e).__name__, pbatch=pb, dist=case["dist"], strategy=case["strategy"])
+        ctx.cell(*_cell(case, full))
+        return
+    for b, (r, rl) in reps.items():
+        gR, aR, pR = step(r, rl, _sl(X, db, b, full), _sl(y, db, b, full))
+        for k, gr in gR.items():
+            gb = gB.get(k)
+            if gr is None or gb is None:
+                continue
+            nb = gb.dim() - gr.dim()
+            if nb != len(full) and not (nb == 0 and not full):
+                continue  # a parameter shared by all elements (un-batched inducing points): its gradient is the sum over elements
+            ctx.close("svgp_step_replica", _sl(gb, gb.shape[:nb], b, full), gr, (1e-7, 1e-6), cls=f"grad:{k.split('.')[-1]}:{case['dist'][:6]}", element=list(b), param=k)
+        ctx.close("svgp_step_replica", torch.cat([_ex(aB[0], full, n)[b], _ex(aB[1], full, n, n)[b].reshape(-1)]), torch.cat([aR[0], aR[1].reshape(-1)]), (1e-7, 1e-6), cls=f"after_step:{case['dist'][:6]}:{case['strategy'][:6]}", element=list(b))
     ctx.cell(*_cell(case, full))
 
 
